@@ -547,6 +547,14 @@ MUTANTS = [
     dict(name='c03-filter-result-not-stored', prop='C03', clause='D10', edits=[(PP_CPP,
         "        my_object = (*my_filter)(my_object);\n        if( my_filter->is_serial() )\n            my_filter->my_input_buffer->try_to_spawn_task_for_next_token(*this, ed);",
         "        void* produced = (*my_filter)(my_object);\n        if( my_filter->is_serial() )\n            my_filter->my_input_buffer->try_to_spawn_task_for_next_token(*this, ed);\n        if( produced ) my_object = produced;")]),
+    dict(name='c02-seed3-scan-front-steps-prev', prop='C02', clause='D1', edits=[('src/tbb/concurrent_monitor.h',
+        """            for (base_node* n = my_waitset.last(); n != end; n = next) {
+                next = n->prev;""", """            for (base_node* n = my_waitset.front(); n != end; n = next) {
+                next = n->prev;""")]),
+    dict(name='c02-notify-scan-last-steps-next', prop='C02', clause='D1', edits=[('src/tbb/concurrent_monitor.h',
+        """            for (base_node* n = my_waitset.last(); n != end; n = nxt) {
+                nxt = n->prev;""", """            for (base_node* n = my_waitset.last(); n != end; n = nxt) {
+                nxt = n->next;""")]),
     # ---------------------------------------------------------------- C05
     dict(name='c05-simple-do-while', prop='C05', clause='D1', edits=[
         (PT_H, "        while( range.is_divisible() )\n            start.offer_work( split_obj, ed );", "        do {\n            start.offer_work( split_obj, ed );\n        } while( range.is_divisible() );")]),
@@ -1046,6 +1054,10 @@ BENIGN = [
         tbb::detail::invoke(my_body, std::move(input_helper::token(temp_input)));
         release_input();
         return nullptr;""")]),
+    dict(name='c02-b-scan-oldest-first', prop='C02', edits=[('src/tbb/concurrent_monitor.h',
+        """            for (base_node* n = my_waitset.last(); n != end; n = next) {
+                next = n->prev;""", """            for (base_node* n = my_waitset.front(); n != end; n = next) {
+                next = n->next;""")]),
     dict(name='c05-b-ratio-operands-commuted', prop='C05', edits=[('include/oneapi/tbb/blocked_range2d.h',
         "        if ( my_rows.size()*double(my_cols.grainsize()) < my_cols.size()*double(my_rows.grainsize()) ) {",
         "        if ( double(my_cols.grainsize())*my_rows.size() < double(my_rows.grainsize())*my_cols.size() ) {")]),
